@@ -12,11 +12,13 @@ PROP = "C02"
 
 
 def run():
-    return semflow.run_sem(PROP, "sem", "shapes,control,loops,calls,data,mixed", 500, 12000,
+    return semflow.run_sem(PROP, "sem", "shapes,control,loops,calls,data,heap,mixed", 500, 12000,
                            "all depth-2 nestings of and/or/begin/newScope/let/letseq/cond with traced leaves x 4 value patterns x "
                            "{top level, function body}; seeded random programs per slice (control, loops with plain/labelled "
                            "break/continue through let/newScope/cond, calls with fixed/variadic parameters and recursion, "
-                           "data builtins with map/apply, mixed), a third of them with random legal whitespace/comments",
+                           "data builtins with map/apply, heap = arrays and hashes as objects with identity: aset/hset/hdel/append/concat/keys "
+                           "through second names, arguments, closures, containers in containers and loops, every tr a snapshot; "
+                           "mixed), a third of them with random legal whitespace/comments",
                            semflow.SEM_ASSUMPTIONS)
 
 
